@@ -168,6 +168,56 @@ CHECKS["C26"] = (
     "DESIGN.md 6/C26",
 )
 
+CHECKS["C17"] = (
+    "model_checking",
+    "explicit-state BFS over ValueSet operation histories to a fixpoint (key = the implementation's own _values/_ranges) against Python sets; exhaustive small constraint tables x partial assignments; the real assert_level_constraint fed key/value sequences; exhaustive small CSV tables",
+    "Membership, iteration and disjointness of every reachable ValueSet equal the set model; for every enumerated table allowed_values_for and is_allowed_combination agree with each other and the reference semantics; incremental checking accepts exactly the sequences whose every prefix is allowed; CSV cells (values, ranges, any, ditto, blank) are read back as written.",
+    "Universe 0..6 (+True); tables up to 2 (3) columns x 2 keys; CSV 2 rows x up to 3 columns.",
+    "DESIGN.md 6/C17",
+)
+CHECKS["C20"] = (
+    "model_checking",
+    "exhaustive bit strings (bounded length) x read programs x start bits x bounded-block lengths with three-way agreement (BitstreamReader, validator reader, bit-list model); writer value ranges against the model; explicit-state BFS over reader/writer/validator-reader operation histories keyed on the implementation's own state",
+    "Every primitive read returns the same value at the same position in both readers and the model (incl. EOF behaviour and reads past bounded blocks); every write produces the model's bytes, exp-Golomb length functions equal bits written, out-of-range values raise OutOfRangeError with nothing written, 1-bits past a block end are accepted and 0-bits rejected; histories of writes/reads/seeks/tells/flushes/blocks agree with the model.",
+    "Bit strings <= 9 (13) bits fully crossed, longer ones on a seed-selected stratum; negative block lengths for the serdes reader only.",
+    "DESIGN.md 6/C20",
+)
+CHECKS["C21"] = (
+    "model_checking",
+    "exhaustive enumeration of serdes description programs (bounded statements/nesting) from a grammar, each run through the real Serialiser and Deserialiser against an independent interpreter that predicts bits, description tree, types, paths and the first failure",
+    "Serialise-then-deserialise yields an equal, equally typed tree with verify_complete passing; every single extra value raises UnusedTargetError, every removed needed value fails unless a default exists (then the default is written); re-used targets raise ReusedTargetError with the first value intact; after every statement path() reaches cur_context.",
+    "Programs <= 3 statements fully plus a seed-selected stratum of 4-statement programs (all <= 4 and reduced-grammar 5 in thorough).",
+    "DESIGN.md 6/C21",
+)
+CHECKS["C22"] = (
+    "exploration",
+    "exhaustive enumeration of pairwise-complete and full structural / colour products of video formats x every picture generator",
+    "For every regular format each generator yields >= 1 picture (even count for fields), numbered from 0, every component exactly the coded size and every sample a Python int within the component's bit depth; mid_gray equals 2^(depth-1).",
+    "Depths <= 31; irregular formats are out of scope; natural pictures swapped for the suite's small ones.",
+    "DESIGN.md 6/C22",
+)
+CHECKS["C23"] = (
+    "exploration",
+    "exhaustive enumeration of bit depths 1..64 x geometries x coding modes x sample patterns x picture numbers for the raw+JSON file format; every one-sample / few-sample / one-metadata-field differing pair for the compare tool",
+    "read(write(p)) == p with types; bytes on disk equal an independent little-endian planar encoder; compare_pictures reports identical (0) exactly for equal pairs and otherwise the exact per-component differing-pixel counts and the right status class.",
+    "Pictures <= 4x4; depths 1-64.",
+    "DESIGN.md 6/C23",
+)
+CHECKS["C28"] = (
+    "fault_enumeration",
+    "exhaustive one-deviation (every cell x alphabet, every key, every row/column/file edit) and in-column two-deviation enumeration of four seed CSV files plus tiny exhaustive grammars and a raw family (oversized cells, bare CRs), against a domain predicate and an independent reference reader written from the documentation",
+    "read_codec_features_csv returns only in-domain configurations (enums, minimums, picture_bytes iff lossy, matrix shape, unique names) or raises InvalidCodecFeaturesError -- never anything else; where the documentation decides, verdict and values equal the reference reader.",
+    "csv module trusted to split well-formed text into cells for the reference.",
+    "DESIGN.md 6/C28",
+)
+CHECKS["C24"] = (
+    "model_checking",
+    "stateless exploration with sleep sets of all interleavings of filesystem scheduling points of real worker processes (pairs exhaustively, triples at preemption bound 2, all workers under structured schedules) under a controlled process scheduler; plus whole-generator runs in fresh interpreters with different hash seeds",
+    "Every explored schedule of the real --parallel worker callables (run as real forked processes whose mkdir/stat/listdir/open-for-write/rename/remove on conflict paths are scheduling points) must finish without a worker failing and leave exactly the serial run's output tree (paths and bytes); the serial generator gives byte-identical trees for every PYTHONHASHSEED tried and equals the union of workers run one by one.",
+    "Conflict paths come from a recording run of each worker alone; operations on other paths commute; independence = unrelated paths or both non-mutating; sandbox filesystem semantics.",
+    "DESIGN.md 6/C24",
+)
+
 NOT_YET = "check not built yet in this revision (planned, see DESIGN.md section 6)"
 
 
